@@ -912,6 +912,7 @@ func (d *Pegnetd) ApplyTransactionBatchesInHolding(ctx context.Context, sqlTx *s
 
 			// This will apply all batche inputs, and all batch outputs except
 			// conversions to PEG if we are above the PegnetConversionLimit Act
+			verifGate("hold:batch")
 			err = d.applyTransactionBatch(sqlTx, txBatch, rates, averages, currentHeight)
 			// The err needs to be converted to a code. If the err is still
 			// not nil, then the code is 0 and the error is probably db related.
